@@ -38,6 +38,7 @@ type world struct {
 	dir      string
 	L        *refctl.Identity
 	accID    string
+	accName  string // the advertised name of the bridge
 	accLTPK  []byte
 	canaries []string
 	chars    []*characteristic.Characteristic // every characteristic of every accessory
@@ -113,6 +114,7 @@ func build(rnd *rand.Rand, dir string, L *refctl.Identity) (*world, error) {
 		return nil, fmt.Errorf("no accessory entity")
 	}
 	w.accID, w.accLTPK = acc.Name, acc.PublicKey
+	w.accName = "C01 Bridge"
 	return w, nil
 }
 
@@ -162,6 +164,7 @@ type attacker struct {
 	haveExchange    bool
 	me              *refctl.Identity
 	srpSalt, srpB   []byte
+	srpK            []byte // session key of the attacker's own SRP run with a guessed password
 }
 
 type step struct {
@@ -176,7 +179,10 @@ var protectedOps = []string{"GET /accessories", "GET /characteristics", "PUT val
 	"other-method DELETE /pairings", "other-method PATCH /pairings", "other-method OPTIONS /pairings", "other-method FOO /pairings", "other-method DELETE /pairings-remove", "other-method PATCH /pairings-remove",
 	"other-method DELETE /characteristics", "other-method PATCH /characteristics", "other-method OPTIONS /accessories", "other-method PATCH /accessories", "other-method DELETE /resource", "other-method FOO /characteristics"}
 var handshakeOps = []string{"setup M1", "setup M3 wrong-proof", "setup M3 A=0", "setup M5 zero-key", "verify M1", "verify M1 short-key", "verify M3 unknown-name", "verify M3 accessory-name",
-	"verify M3 L-bad-signature", "verify M3 zero-key", "verify M3 short", "identify", "L read", "L write", "L subscribe", "switch-connection", "encrypted GET /accessories", "encrypted PUT value", "encrypted-zero GET /accessories", "encrypted-zero PUT value"}
+	"verify M3 L-bad-signature", "verify M3 zero-key", "verify M3 short", "identify", "L read", "L write", "L subscribe", "switch-connection", "encrypted GET /accessories", "encrypted PUT value", "encrypted-zero GET /accessories", "encrypted-zero PUT value",
+	// complete, consistent SRP runs with passwords anybody can know (what the accessory advertises, the fixed SRP user, nothing),
+	// and the key exchange sealed under the key of that run
+	"setup M3 guess:accessory-id", "setup M3 guess:accessory-name", "setup M3 guess:empty", "setup M3 guess:srp-user", "setup M5 guess-key"}
 
 func (w *world) request(op string, rnd *rand.Rand, at *attacker) (method, target, ctype string, body []byte, protected bool) {
 	aid := w.sw.Accessory.ID
@@ -292,6 +298,17 @@ func main() {
 		}
 		histories = append(histories, h)
 	}
+	// a complete pair-setup run with each public guess: at once, after a failed attempt, after a forged exchange; then
+	// (should anything have been stored) a protected request
+	for _, g := range []string{"accessory-id", "accessory-name", "empty", "srp-user"} {
+		for _, pre := range [][]string{{}, {"setup M1", "setup M3 wrong-proof"}, {"setup M1", "setup M3 A=0"}, {"setup M1", "setup M5 zero-key"}, {"setup M1", "setup M3 wrong-proof", "setup M1", "setup M3 wrong-proof"}} {
+			var h []step
+			for _, o := range append(append([]string{}, pre...), "setup M1", "setup M3 guess:"+g, "setup M5 guess-key", "GET /accessories") {
+				h = append(h, step{Op: o})
+			}
+			histories = append(histories, h)
+		}
+	}
 	// persistence: many failed attempts on one connection (counters, lock-outs), then protected requests in plaintext and
 	// under the keys of the last failed exchange
 	for _, k := range []int{100, r.Pick(3, 256)} {
@@ -359,6 +376,7 @@ func main() {
 	r.Floor("concurrent_legit_requests_served", int(r.Counter("concurrent_legit_requests_served")), 1000)
 	r.Floor("collision_scenarios", int(r.Counter("collision_scenarios")), 8)
 	r.Floor("attacker_requests", int(r.Counter("attacker_requests")), 1000)
+	r.Floor("setup_runs_with_a_public_guess", int(r.Counter("setup_runs_with_a_public_guess")), 20)
 	r.Floor("fences", int(r.Counter("fences_on_attacker_connections")), 100)
 	r.Floor("legit_operations_ok", int(r.Counter("legit_operations_ok")), 50)
 	r.Finish()
@@ -624,11 +642,28 @@ func handshakeMessage(w *world, at *attacker, op string, rnd *rand.Rand) ([]byte
 			}
 		}
 		return refctl.SetupM3(cl.Abytes, proof), "/pair-setup"
+	case "setup M3 guess:accessory-id", "setup M3 guess:accessory-name", "setup M3 guess:empty", "setup M3 guess:srp-user":
+		pw := map[string]string{"accessory-id": w.accID, "accessory-name": w.accName, "empty": "", "srp-user": "Pair-Setup"}[strings.TrimPrefix(op, "setup M3 guess:")]
+		cl := refctl.NewSRPClient(rnd)
+		proof := make([]byte, 64)
+		at.srpK = nil
+		if at.srpSalt != nil && cl.Compute(at.srpSalt, at.srpB, pw) == nil {
+			proof, at.srpK = cl.M1, cl.K
+		}
+		run.Count("setup_runs_with_a_public_guess", 1)
+		return refctl.SetupM3(cl.Abytes, proof), "/pair-setup"
 	case "setup M3 A=0":
 		p := make([]byte, 64)
 		return refctl.SetupM3([]byte{0}, p), "/pair-setup"
 	case "setup M5 zero-key":
 		return refctl.SetupM5([32]byte{}, refctl.SetupM5Plain(nil, at.me.ID, at.me.LTPK, at.me.LTSK)), "/pair-setup"
+	case "setup M5 guess-key":
+		k := at.srpK
+		if k == nil {
+			k = make([]byte, 64)
+			rnd.Read(k)
+		}
+		return refctl.SetupM5(refctl.SetupEncKey(k), refctl.SetupM5Plain(k, at.me.ID, at.me.LTPK, at.me.LTSK)), "/pair-setup"
 	case "verify M1":
 		at.curPriv, at.curPub = refctl.NewEphemeral(rnd)
 		return refctl.VerifyM1(at.curPub[:]), "/pair-verify"
